@@ -53,7 +53,7 @@ def main():
         i = args.index('--props'); props = args[i + 1].split(','); del args[i:i + 2]
     names = args or sorted(os.listdir(os.path.join(V, 'benign')))
     wrong = 0
-    with ThreadPoolExecutor(max_workers=5) as ex:
+    with ThreadPoolExecutor(max_workers=7) as ex:
         for name, bad, used in ex.map(lambda n: (lambda pp: run_one(n, pp) + (pp,))(auto_props(n) if auto else props), names):
             print('%-10s %s%s' % (name, 'OK' if not bad else 'ALARM', ('   [' + ','.join(used) + ']') if auto else ''))
             for p, msg in bad:
